@@ -464,3 +464,18 @@ def c08OK (t : Tables) (w : Wrapper) : Bool :=
   leavesOK t w.treeNone && leavesOK t w.treeSome
 
 end IRModel.Wrap
+
+/-! ### C06 at wrapper level, full-frame repeat style -/
+namespace IRModel.Wrap
+open IRModel IRModel.Py IRModel.Proto
+
+/-- the key-held sequence is the data frame sent `repeat_count + 1` times: every frame of every trace is the first
+    packet, and that packet is the same call in all three traces; a data frame is longer than a repeat marker -/
+def c06OK (t : Tables) (w : Wrapper) : Bool :=
+  match firstPacket w with
+  | none => false
+  | some p0 =>
+    w.enc.all (fun tr => decide (tr.packets.head? = some p0) && tr.frames.all (fun r => decide (r = .packet 0))) &&
+    decide (t.repeatLeadIn.length + t.repeatLeadOut.length < t.leadIn.length + 2)
+
+end IRModel.Wrap
